@@ -130,10 +130,16 @@ func nestedUDP(depth, qsize int, how string) NestedRec {
 		return got, ok
 	}
 	pathOf := func(d memnet.Dgram) string { p, _ := d.Opts.Path(); return p }
-	inject := func(raw []byte) {
-		// from a separate goroutine: with queue size 0 the socket reader blocks until a loop takes the message
-		go func() { _ = u.CC.Process(nil, raw) }()
-	}
+	// one goroutine hands the datagrams to the connection in order, as the session's single socket reader does: when the
+	// receive queue is full it is parked in Process and everything behind it (an ACK included) waits
+	injq := make(chan []byte, 256)
+	go func() {
+		for raw := range injq {
+			_ = u.CC.Process(nil, raw)
+		}
+	}()
+	defer close(injq)
+	inject := func(raw []byte) { injq <- raw }
 	nestedReqs := make([]memnet.Dgram, depth+1)
 	mid := int32(1000)
 	for d := depth; d >= 1; d-- {
@@ -150,7 +156,16 @@ func nestedUDP(depth, qsize int, how string) NestedRec {
 			return finishNested(r, cnt)
 		}
 		nestedReqs[d] = q
-		// acknowledge the nested request at once (the response will come separately), so that the
+		if how == "lateack" {
+			// before the nested request is acknowledged the peer sends more requests than the receive queue holds: they
+			// must be served while the handler waits for its acknowledgement (which sits behind them on the socket)
+			for k := 0; k <= qsize; k++ {
+				mid++
+				ltok := []byte{0xC0, byte(d), byte(k)}
+				inject(memnet.Build(message.NonConfirmable, int(codes.GET), mid, ltok, message.Options{{ID: message.URIPath, Value: []byte("plain")}}, nil))
+			}
+		}
+		// acknowledge the nested request (the response will come separately), so that the
 		// connection's NSTART=1 budget does not keep the next nested request from being sent
 		inject(memnet.Build(message.Acknowledgement, int(codes.Empty), q.MID, nil, nil, nil))
 		// while the handler is blocked an unrelated request must still be served
@@ -278,7 +293,7 @@ func RunNested(out string) {
 	for k := 0; k < reps; k++ {
 		for _, q := range []int{0, 1, 16} {
 			for d := 1; d <= 3; d++ {
-				for _, how := range []string{"con", "non", "blockwise", "samemid", "samemid", "samemid", "samemid"} {
+				for _, how := range []string{"con", "non", "blockwise", "lateack", "samemid", "samemid", "samemid", "samemid"} {
 					w.Put(nestedUDP(d, q, how))
 				}
 				w.Put(nestedTCP(d, q))
